@@ -39,7 +39,7 @@ func guarded(f func()) (panicMsg string, hung bool) {
 func init() {
 	Register(&Prop{
 		ID: "C08", NoShrink: false,
-		Rule: "arbitrary and grammar-derived byte strings (valid messages, byte-flipped, truncated, random) through Request.ReadLimitBody and Response.ReadLimitBody with read-buffer sizes 16..8192 and random read splits, " +
+		Rule: "arbitrary and grammar-derived byte strings (valid messages, byte-flipped, truncated, random, chunk sizes and Content-Length values at the 64-bit digit boundaries) through Request.ReadLimitBody and Response.ReadLimitBody with read-buffer sizes 16..8192 and random read splits, " +
 			"Cookie.ParseBytes, URI.Parse, Args.ParseBytes, ParseByteRange, VisitHeaderParams, MultipartForm, ParseHTTPDate, ParseIPv4 — each under recover and a 10 s watchdog; for requests the reader position after a successful read is compared with the " +
 			"end of the first message of the Lean reference framer; non-trivial = the parser accepted the input or the input is at least 8 bytes; distinct = distinct input",
 		Parallel: true,
@@ -184,6 +184,28 @@ func init() {
 					}
 				}
 				return b
+			}
+			// numeric boundaries: chunk sizes of 14..18 hex digits and Content-Length values of 17..21 decimal digits with
+			// extreme leading digits (sign bit / overflow of the accumulating parsers), in requests and responses
+			for digits := 14; digits <= 18; digits++ {
+				for _, top := range "1789afF" {
+					for _, fill := range "0fF9" {
+						hx := string(top) + strings.Repeat(string(fill), digits-1)
+						for _, tail := range []string{"\r\nabc\r\n0\r\n\r\n", ";ext\r\nabc", "\r\n"} {
+							emit("req", []byte("POST / HTTP/1.1\r\nHost: h\r\nTransfer-Encoding: chunked\r\n\r\n"+hx+tail), []byte{byte(r.Intn(256))}, []byte{byte(r.Intn(64))})
+							emit("resp", []byte("HTTP/1.1 200 OK\r\nTransfer-Encoding: chunked\r\n\r\n"+hx+tail), []byte{byte(r.Intn(256))}, []byte{byte(r.Intn(64))})
+						}
+					}
+				}
+			}
+			for digits := 17; digits <= 21; digits++ {
+				for _, top := range "1289" {
+					dec := string(top) + strings.Repeat(string("0379"[r.Intn(4)]), digits-1)
+					emit("req", []byte("POST / HTTP/1.1\r\nHost: h\r\nContent-Length: "+dec+"\r\n\r\nabc"), []byte{byte(r.Intn(256))}, []byte{byte(r.Intn(64))})
+					emit("resp", []byte("HTTP/1.1 200 OK\r\nContent-Length: "+dec+"\r\n\r\nabc"), []byte{byte(r.Intn(256))}, []byte{byte(r.Intn(64))})
+					emit("range", []byte("bytes="+dec+"-"), []byte{0}, []byte{0})
+					emit("range", []byte("bytes=-"+dec), []byte{0}, []byte{0})
+				}
 			}
 			for i := 0; i < n; i++ {
 				var kind string
